@@ -100,7 +100,7 @@ def build_world(cfg):
         mod = {"c03": c03, "c04": c04, "c05": c05}[fam]
         w = mod.build_world(cfg["inner"])
         w.oracles = []
-        if cfg.get("dl"):
+        if cfg.get("dl") and getattr(w.s, "searcher", None) is not None and hasattr(w.s.searcher, "_debug_log"):
             # same effect as search_options={'debug_log': True}: RandomSearcher.__init__ does exactly this assignment
             w.s.searcher._debug_log = _debug_printer()
         return w
